@@ -44,7 +44,8 @@ theorem childLt_rk (T : Table) : ChildLt T (rk T) := by
     · exact absurd hc' (hmin m (by omega))
 
 /-- `checkRel` in mode ALL is sound on first-order types of any table -/
-theorem checkRel_good_any (T : Table) : ∀ (n bound : Nat), RecGood T (rk T) (checkRel T .all n) bound :=
-  checkRel_good (childLt_rk T)
+theorem checkRel_good_any (T : Table) :
+    ∀ (n bound : Nat), RecGood T (Valid T) (rk T) (checkRel T .all n) bound :=
+  checkRel_good (Rules.valid T) (childLt_rk T)
 
 end QM.Types
